@@ -190,8 +190,8 @@ def execute(ctx, case, scope):
     adf = motlutil.vary_index(rows_to_df(case["a"], rng), case["seed"])
     if case["seed"] % 3 == 0:
         adf = motlutil.int_positions(adf)
-    m = cm.Motl(adf)
-    sv = cm.Motl(motlutil.vary_index(rows_to_df(case["b"], rng), case["seed"] // 4))
+    m = cm.Motl(motlutil.vary_columns(adf, case["seed"] // 2))
+    sv = cm.Motl(motlutil.vary_columns(motlutil.vary_index(rows_to_df(case["b"], rng), case["seed"] // 4), case["seed"] // 5))
     shared = {}
     st, _ = project(m.df)
     b_rows, _ = project(sv.df)
